@@ -323,6 +323,8 @@ func groupDiff(exp, got *em.Node) string {
 func oracleC07(ctx *harness.Ctx, cs *harness.Case) (ds []harness.Discrepancy) {
 	add := func(sig, msg string) { ds = append(ds, harness.Discrepancy{Sig: sig, Msg: msg}) }
 	switch cs.Leg {
+	case "primary-substitution":
+		c07Subst(cs, add)
 	case "chain":
 		var err error
 		o := guarded(func() ([]astNode, error) { _, err = memefish.ParseExpr("", cs.Input); return nil, nil })
@@ -461,6 +463,7 @@ func runC07(ctx *harness.Ctx) {
 				return 0
 			}()), ctx.ViolationCount() == 0)
 	})
+	runC07Subst(ctx)
 	ctx.Leg("chain", func() {
 		if ctx.Shard != 0 {
 			return
